@@ -9,6 +9,7 @@ import (
 	"strings"
 
 	"go.einride.tech/xsens"
+	"go.einride.tech/xsens/xsensemulator"
 )
 
 const canonNaN64 = 0x7ff8000000000000
@@ -128,10 +129,77 @@ func (c *ctx) codecCase(id xsens.DataIdentifier, wire uint16, data []byte) {
 	})
 	_ = md
 	c.emit("codec", tup("\""+ty+"\"", zs(int64(wire))+"%Z", nlist(data), dec, reenc, cbool(unchanged)))
+	// the same value encoded by an emulator configured with the packet's identifier (a duplicate of the case above
+	// unless the emulator changes something)
+	if strings.HasPrefix(dec, "(ROk") && strings.HasPrefix(reenc, "(ROk") {
+		viaEmu := "RPan"
+		protect(func() {
+			hid := xsens.MTData2Packet(exact(pkt)).Identifier()
+			emu := xsensemulator.NewEmulator(nil)
+			emu.SetOutputConguration(xsens.OutputConfiguration{{DataIdentifier: hid, OutputFrequency: 100}})
+			p, err := emu.MarshalMessage(pre, hid.DataType)
+			if err != nil {
+				viaEmu = "RErr"
+				return
+			}
+			viaEmu = "(ROk " + nlist(p) + ")"
+		})
+		c.emit("codec", tup("\""+ty+"\"", zs(int64(wire))+"%Z", nlist(data), dec, viaEmu, cbool(unchanged)))
+		c.count("encoded-through-emulator")
+	}
+}
+
+// codecPairs: two packets of different data types in one message, through a client; the value handed out for the first
+// packet is read after the second has been scanned (every data type has a record of its own)
+func (c *ctx) codecPairs() {
+	for _, ta := range supportedTypes {
+		for _, tb := range supportedTypes {
+			if ta == tb {
+				continue
+			}
+			ida := xsens.DataIdentifier{DataType: ta, CoordinateSystem: xsens.CoordinateSystem(4 * c.rng.Intn(3)), Precision: xsens.Precision(c.rng.Intn(4))}
+			idb := xsens.DataIdentifier{DataType: tb, CoordinateSystem: xsens.CoordinateSystem(4 * c.rng.Intn(3)), Precision: xsens.Precision(c.rng.Intn(4))}
+			da := c.dataPattern(int(ida.DataSize()), 5)
+			db := c.dataPattern(int(idb.DataSize()), 2)
+			wa, wb := ida.Uint16(), idb.Uint16()
+			pa := append([]byte{byte(wa >> 8), byte(wa), byte(len(da))}, da...)
+			pb := append([]byte{byte(wb >> 8), byte(wb), byte(len(db))}, db...)
+			port := &scriptedPort{r: &chunkReader{data: xsens.NewMessage(xsens.MessageIdentifierMTData2, append(append([]byte{}, pa...), pb...)), final: io.EOF}}
+			cl := xsens.NewClient(port)
+			var first xsens.MeasurementData
+			n := 0
+			protect(func() {
+				if cl.Receive(context.Background()) != nil {
+					return
+				}
+				for cl.ScanMeasurementData() {
+					if n == 0 {
+						first = cl.MeasurementData()
+					}
+					n++
+				}
+			})
+			if first == nil || n != 2 {
+				continue
+			}
+			dec, reenc := "(ROk "+valueTerm(first)+")", "RPan"
+			protect(func() {
+				p, err := first.MarshalMTData2Packet(xsens.MTData2Packet(pa).Identifier())
+				if err != nil {
+					reenc = "RErr"
+					return
+				}
+				reenc = "(ROk " + nlist(p) + ")"
+			})
+			c.emit("codec", tup("\""+reflect.TypeOf(first).Elem().Name()+"\"", zs(int64(wa))+"%Z", nlist(da), dec, reenc, "true"))
+			c.count("pairs-through-client")
+		}
+	}
 }
 
 func init() {
 	props["C04"] = func(c *ctx) {
+		c.codecPairs()
 		for _, t := range supportedTypes {
 			for prec := 0; prec < 4; prec++ {
 				for coord := 0; coord < 16; coord += 4 {
